@@ -52,6 +52,12 @@ def main():
         elif fn.endswith((".diff", ".rs", ".md", ".sh", ".txt")):
             shutil.copy(src, os.path.join(dest, fn))
     meta = {"id": name, "property": prop, "confirmed": {}, "checks": {}, "at": time.strftime("%Y-%m-%dT%H:%M:%S")}
+    # the change under test is exactly OUT/patch.diff (git stash is shared by all worktrees of a repository, so the
+    # working tree an agent leaves behind is not trusted): reset src, apply the patch
+    patch = os.path.join(dest, "patch.diff")
+    sh("git checkout -- src", cwd=wt)
+    rc0, o0 = sh("git apply %s" % patch, cwd=wt)
+    meta["confirmed"]["patch_applies_to_worktree"] = rc0 == 0
     demo = [f for f in os.listdir(os.path.join(wt, "tests")) if f.startswith("seeded_") and f.endswith(".rs")]
     demo_name = demo[0][:-3] if demo else None
     ran = []
@@ -69,12 +75,12 @@ def main():
         ran.append("cargo test --workspace --offline --tests   (with change, demo moved away)")
         shutil.move(os.path.join(wt, demo_name + ".rs.away"), os.path.join(wt, "tests", demo_name + ".rs"))
         # demo without the change
-        sh("git stash push -- src", cwd=wt)
+        sh("git apply -R %s" % patch, cwd=wt)
         rc3, o3 = sh("cargo test --offline --test %s 2>&1 | tail -30" % demo_name, cwd=wt)
         p3, f3 = suite_counts(o3)
         meta["confirmed"]["demo_without_change"] = {"passed": p3, "failed": f3}
-        ran.append("git stash push -- src; cargo test --offline --test %s   (without change)" % demo_name)
-        sh("git stash pop", cwd=wt)
+        ran.append("git apply -R patch.diff; cargo test --offline --test %s   (without change)" % demo_name)
+        sh("git apply %s" % patch, cwd=wt)
     ok = (meta["confirmed"].get("suite_with_change", {}).get("passed") == 71 and meta["confirmed"]["suite_with_change"]["failed"] == 0
           and meta["confirmed"]["demo_with_change"]["fails"] and meta["confirmed"]["demo_without_change"]["failed"] == 0
           and meta["confirmed"]["demo_without_change"]["passed"] > 0)
